@@ -917,9 +917,10 @@ def oracle_deviation(case, real):
 def corr_diff(case, real, m):
     """real vs model; returns a description or None"""
     mv = model_view(m)
-    if F_PARENT_DEST in finding_classes(case) and real["kind"] == "parse" and mv["kind"] == "crash":
-        # the shared namespace key: AttributeError from the command line, a type error of the key's value from a config
-        real = dict(real, kind="crash")
+    if F_PARENT_DEST in finding_classes(case) and {real["kind"], mv["kind"]} <= {"parse", "ok"} and case["channel"] != "argv":
+        # a subcommand called `config` with a --config somewhere above it: which level's `config` key holds what is beyond
+        # the model's one-level view
+        return None
     if real["kind"] != mv["kind"]:
         return "outcome: real %s %s, model %s" % (real["kind"], real.get("msg", real.get("stderr", "")), mv["kind"])
     if real["kind"] == "ok":
